@@ -1,5 +1,11 @@
 package main
 
+import (
+	"fmt"
+	"os"
+	"path/filepath"
+)
+
 // C01 — reads reflect exactly the accepted writes (DESIGN 4/C01).
 
 func tierN(quick, thorough int) func(string) int {
@@ -19,7 +25,17 @@ func clockModeFor(cfg Config) int {
 }
 
 func stdHooks() *Hooks {
-	return &Hooks{Sleep: clockSleep, Go: clockGo}
+	h := &Hooks{Sleep: clockSleep, Go: clockGo}
+	if os.Getenv("VERIF_DEBUG_FS") != "" {
+		// debugging aid: print every mutating FS event with its sod call site
+		h.FS = func(ev *FSEvent) error {
+			if ev.Mutating && ev.Phase == "pre" {
+				fmt.Fprintf(os.Stderr, "FS g%d %s %s @%s\n", gid(), ev.Op, filepath.Base(ev.Path), sodSite(5))
+			}
+			return nil
+		}
+	}
+	return h
 }
 
 func init() {
